@@ -144,7 +144,7 @@ def membership_gate(ctx):
     res.check(ok, 'R-TAB.shortcut-names', f.fq, "the class lookup (eval) is dominated by `<hyphenated name> not in self.possible_children_names -> raise NameError`: "
               "only names of the element's own possible children are ever turned into classes", key='R-TAB.shortcut-names|membership-gate')
     for gt in gates:
-        left = unparse(gt.ast.left)
+        left = unparse(dom.expand(g, gt.ast.left, gt))
         res.check(left.startswith("'-'.join(") and ".split('_')" in left, 'R-TAB.shortcut-names', f.fq, "membership is tested on the name with _ mapped to -",
                   fail_detail=left, key='R-TAB.shortcut-names|membership-form')
 
